@@ -1,5 +1,8 @@
 import PytmeModel.Model.C06
 import PytmeModel.Proofs.C06
+import PytmeModel.Proofs.C06Linear
+import PytmeModel.Proofs.C06LinearMoment
+import Mathlib.Tactic.IntervalCases
 import Mathlib.Algebra.Field.Rat
 import Mathlib.Tactic.NormNum
 import Mathlib.Tactic.FinCases
@@ -41,6 +44,65 @@ def exPts : Fin 3 → Vec 2 Rat := fun k => vecOfList 2 ([[0, 0], [4, 0], [2, 9]
 theorem exRq_orth : matMul (transpose exRq) exRq = ident 2 := by funext i j; fin_cases i <;> fin_cases j <;> decide +kernel
 theorem exRq_inv : matMul exRqinv exRq = ident 2 := by funext i j; fin_cases i <;> fin_cases j <;> decide +kernel
 theorem exRq_inv' : matMul exRq exRqinv = ident 2 := by funext i j; fin_cases i <;> fin_cases j <;> decide +kernel
+
+
+/-! ## order-1 interpolation -/
+
+/-- a 4 × 5 array with a one-voxel zero border, a sub-voxel translation `(1/2, −3/4)`, some centre -/
+def exA2 : Arr Rat := ⟨[4, 5], #[0,0,0,0,0, 0,3,5,0,0, 0,2,7,0,0, 0,0,0,0,0]⟩
+def exT2 : Vec 2 Rat := vecOfList 2 [1/2, -3/4]
+def exC2 : Vec 2 Rat := vecOfList 2 [3/2, 2]
+
+instance (n : Nat) (t : Rat) (x : Int) : Decidable (SuppOK n t x) := by unfold SuppOK; infer_instance
+
+/-- every non-zero voxel of `exA2`, shifted by `exT2`, stays inside -/
+theorem exA2_supp : ∀ idx, inShape exA2.shape idx = true → exA2.getD idx 0 ≠ 0 →
+    ∀ i : Fin 2, SuppOK (exA2.shape.getD i.val 0) (exT2 i) ((idx.getD i.val 0 : Nat) : Int) := by
+  intro idx h
+  match idx, h with
+  | [i, j], h =>
+    have h' : i < 4 ∧ j < 5 := by simpa [exA2, inShape] using h
+    obtain ⟨hi, hj⟩ := h'
+    interval_cases i <;> interval_cases j <;> decide +kernel
+  | [], h => simp [exA2, inShape] at h
+  | [_], h => simp [exA2, inShape] at h
+  | _ :: _ :: _ :: _, h => simp [exA2, inShape] at h
+
+/-- the values of `exA2` lie in `[0, 7]` -/
+theorem exA2_range : ∀ idx, inShape exA2.shape idx = true → (0 : Rat) ≤ exA2.getD idx 0 ∧ exA2.getD idx 0 ≤ 7 := by
+  intro idx h
+  match idx, h with
+  | [i, j], h =>
+    have h' : i < 4 ∧ j < 5 := by simpa [exA2, inShape] using h
+    obtain ⟨hi, hj⟩ := h'
+    interval_cases i <;> interval_cases j <;> decide +kernel
+  | [], h => simp [exA2, inShape] at h
+  | [_], h => simp [exA2, inShape] at h
+  | _ :: _ :: _ :: _, h => simp [exA2, inShape] at h
+
+/-- the affine ramp `2 + 3x − y/2` on 3 × 4 voxels, and a constant array -/
+def exRamp : Arr Rat := Arr.ofFn [3, 4] (fun idx => 2 + 3 * ((idx.getD 0 0 : Nat) : Rat) + (-1/2) * ((idx.getD 1 0 : Nat) : Rat))
+def exConst : Arr Rat := Arr.ofFn [3, 4] (fun _ => 5)
+
+theorem exRamp_affine : ∀ idx, inShape exRamp.shape idx = true →
+    exRamp.getD idx 0 = 2 + dotL [3, -1/2] (ratIdx idx) := by
+  intro idx h
+  have h0 : inShape [3, 4] idx = true := h
+  rw [exRamp, Arr.getD_ofFn _ _ _ _ h0]
+  match idx, h0 with
+  | [i, j], _ => simp [ratIdx, dotL]; ring
+  | [], h => simp [inShape] at h
+  | [_], h => simp [inShape] at h
+  | _ :: _ :: _ :: _, h => simp [inShape] at h
+
+theorem exConst_const : ∀ idx, inShape exConst.shape idx = true → exConst.getD idx 0 = 5 := by
+  intro idx h
+  have h0 : inShape [3, 4] idx = true := h
+  rw [exConst, Arr.getD_ofFn _ _ _ _ h0]
+
+/-- a position inside the 3 × 4 arrays, off the grid on both axes -/
+theorem exInside : InsideL [(1/2 : Rat), 9/4] [3, 4] :=
+  (insideL_iff _ _).2 ⟨rfl, by decide +kernel⟩
 
 
 end Pm.C06
